@@ -8,7 +8,7 @@ import json, os, subprocess, sys, glob
 ROOT = "/verif"
 # a change in one property's mechanism that is decided by another property's check (C06 uses the library's test() as its
 # oracle; what test() means is C13's business)
-ALSO = {"C06-3": ["C13"], "C06-12": ["C13"], "C12-11": ["C07"], "C18-11": ["C04"], "C08-13": ["C10"], "C06-14": ["C13"], "C04-14": ["C12"], "C18-14": ["C01"]}
+ALSO = {"C06-3": ["C13"], "C06-12": ["C13"], "C12-11": ["C07"], "C18-11": ["C04"], "C08-13": ["C10"], "C06-14": ["C13"], "C04-14": ["C12"], "C18-14": ["C01"], "C16-17": ["C01"]}
 
 def sh(cmd, **kw):
     return subprocess.run(cmd, shell=True, stdout=subprocess.PIPE, stderr=subprocess.STDOUT, text=True, **kw)
